@@ -207,3 +207,106 @@ def bounded_cases(thorough=False):
             out.append((f"{name}[n={n}]", not res.startswith("differs"),
                         res, src))
     return out
+
+
+def chunk_obligations(timeout_ms=20000):
+    """PF: for every combination of bound shapes, literal positive step and
+    chunk size the real ChunkLoopTrans is applied, the written loop nest is
+    translated to z3 integer terms and it is proved, for ALL integer values
+    of the variables, that the nest enumerates exactly the original
+    iterations in the original order:
+      sound     every (chunk k, inner j) iteration is an original iteration
+      complete  every original iteration t is iteration j of chunk k(t)
+      ordered   a chunk ends before the next one starts
+    [(name, verdict, detail)], verdict in unsat / sat / unknown / refused"""
+    import itertools
+    import z3
+    from psyclone.psyir.frontend.fortran import FortranReader
+    from psyclone.psyir.nodes import Loop, Assignment, IntrinsicCall
+    from psyclone.psyir.transformations import (ChunkLoopTrans,
+                                                TransformationError)
+    from realise.C19 import _z3_expr
+
+    def zexpr(node, env):
+        if isinstance(node, IntrinsicCall) and \
+                node.routine.name.upper() in ("MIN", "MAX"):
+            a, b = (zexpr(c, env) for c in node.arguments)
+            if node.routine.name.upper() == "MIN":
+                return z3.If(a <= b, a, b)
+            return z3.If(a >= b, a, b)
+        return _z3_expr(node, env)
+    out = []
+    shapes = itertools.product(("lo", "n + 1"), ("hi", "m - 1"),
+                               (1, 2, 3), (1, 2, 3, 4, 6, 32))
+    for lo, hi, st, chunk in shapes:
+        name = f"ChunkLoopTrans[do i = {lo}, {hi}, {st}; chunksize={chunk}]"
+        src = (f"subroutine s(a, lo, hi, n, m)\n  integer :: lo, hi, n, m, i\n"
+               f"  real :: a(100)\n  do i = {lo}, {hi}, {st}\n"
+               f"    a(i) = 1.0\n  end do\nend subroutine s\n")
+        psy = FortranReader().psyir_from_source(src)
+        orig = psy.walk(Loop)[0]
+        env = {}
+        o = [zexpr(x, env) for x in (orig.start_expr, orig.stop_expr,
+                                     orig.step_expr)]
+        try:
+            ChunkLoopTrans().apply(orig, {"chunksize": chunk})
+        except TransformationError:
+            out.append((name, "refused", ""))
+            continue
+        outer, inner = psy.walk(Loop)[:2]
+        ovar = outer.variable.name.lower()
+        # the inner stop is a scalar assigned at the top of the outer body
+        asg = [a for a in outer.loop_body.walk(Assignment)
+               if a.lhs.symbol.name.lower() in
+               [r.symbol.name.lower() for r in
+                inner.stop_expr.walk(type(a.lhs))]]
+        k, j, t = z3.Int("k"), z3.Int("j"), z3.Int("t")
+        olo, ohi, ost = (zexpr(x, env) for x in (
+            outer.start_expr, outer.stop_expr, outer.step_expr))
+        io = olo + k * ost
+
+        def inner_terms(io_val):
+            env2 = dict(env)
+            env2[ovar] = io_val
+            if asg:
+                env2[asg[0].lhs.symbol.name.lower()] = zexpr(asg[0].rhs,
+                                                             env2)
+            return [zexpr(x, env2) for x in (inner.start_expr,
+                                             inner.stop_expr,
+                                             inner.step_expr)]
+        ilo, ihi, ist = inner_terms(io)
+        e = ilo + j * ist
+        in_orig = lambda v: z3.And(o[0] <= v, v <= o[1],   # noqa: E731
+                                   (v - o[0]) % o[2] == 0)
+        goals = {
+            "sound": z3.Implies(z3.And(k >= 0, j >= 0, io <= ohi, e <= ihi),
+                                in_orig(e)),
+            "ordered": z3.Implies(z3.And(k >= 0, io <= ohi),
+                                  z3.And(ihi < io + ost, ilo == io)),
+        }
+        v = o[0] + t * o[2]
+        kk = (v - olo) / ost          # z3 integer division (floor, ost > 0)
+        ilo2, ihi2, ist2 = inner_terms(olo + kk * ost)
+        goals["complete"] = z3.Implies(
+            z3.And(t >= 0, v <= o[1]),
+            z3.And(kk >= 0, olo + kk * ost <= ohi, ilo2 <= v, v <= ihi2,
+                   (v - ilo2) % ist2 == 0))
+        for part, goal in goals.items():
+            s = z3.Solver()
+            s.set("timeout", timeout_ms)
+            s.add(z3.Not(goal))
+            res = s.check()
+            detail = ""
+            if res == z3.sat:
+                m = s.model()
+                detail = "counterexample " + ", ".join(
+                    f"{d.name()}={m[d]}" for d in m.decls()
+                    if d.arity() == 0) + "; written nest: do " + \
+                    f"{ovar} = {outer.start_expr.debug_string()}, " \
+                    f"{outer.stop_expr.debug_string()}, " \
+                    f"{outer.step_expr.debug_string()} / do i = " \
+                    f"{inner.start_expr.debug_string()}, " \
+                    f"{(asg[0].rhs if asg else inner.stop_expr).debug_string()}" \
+                    f", {inner.step_expr.debug_string()}"
+            out.append((name + ":" + part, str(res), detail))
+    return out
